@@ -188,6 +188,32 @@ theorem received_str (s : SendCfg) (e : ExcRec) (cls : ClsRef) (base : Str) :
               ++ Gen.Vinegar.remoteLineEnd ++ tbShown s e) := by
   simp [ExcObj.str, received_get_tb, derivedStr]
 
+/-- **two hops**: an exception received from one peer and raised on to another (what `dump` then sees is the `Derived`
+subclass, presented under the copied `__module__` / `__name__`: `ObjType.presentedAs`) is rebuilt by the final receiver as the
+SAME built-in class the first receiver built — under every switch setting of the second hop, with arguments, attributes and
+texts following the one-hop rule for the record the intermediate peer presents -/
+theorem two_hops_same_class (s2 : SendCfg) (r2 : RecvCfg) (env2 : Env) (o1 : ExcObj) (e2 : ExcRec) (n : Str)
+    (ho : o1.cls = .real (.str Gen.Vinegar.exceptionsModule) n)
+    (he : o1.type.presentedAs = some e2.cls) (hwalk : e2.walkRaises = none)
+    (hk : Known env2 n false) (hw : Writable env2 o1.cls e2) :
+    dumpExc s2 e2 = .ok (recordPayload s2 e2 (.str (tbShown s2 e2)))
+      ∧ loadExc r2 env2 (recordPayload s2 e2 (.str (tbShown s2 e2)))
+          = ⟨[.new o1.cls], .ok (.exc (received s2 e2 o1.cls))⟩
+      ∧ (received s2 e2 o1.cls).type = o1.type := by
+  have hc : e2.cls = ⟨Gen.Vinegar.exceptionsModule, n, .custom⟩ := by
+    simp [ExcObj.type, getExceptionClass, ObjType.presentedAs, ho] at he
+    exact he.symm
+  have hnf : fastPath e2 = false := by simp [fastPath, isStopIteration, hc]
+  have hres : resolveClass r2 env2 (.str e2.cls.modname) (.str e2.cls.name)
+      = .ok (.real (.str Gen.Vinegar.exceptionsModule) n, false) := by
+    rw [hc]; exact resolveClass_builtin r2 env2 n false hk
+  have hl : env2.loaded (.str e2.cls.modname) = true := by rw [hc]; exact hk.1
+  have hev : importEvents r2 env2 (.str e2.cls.modname) = [] := by simp [importEvents, importAttempted, hl]
+  rw [ho] at hw ⊢
+  refine ⟨dumpExc_ok s2 e2 hnf hwalk, ?_, by simp [ExcObj.type, getExceptionClass, received, ho]⟩
+  rw [loadExc_record s2 r2 env2 e2 _ false _ hres, instantiate_ok env2 _ _ _ _ _ _ (build_record env2 s2 e2 _ hw), hev]
+  rfl
+
 /-! ### the witness of the known finding -/
 
 def b : Str := Gen.Vinegar.exceptionsModule
